@@ -65,7 +65,7 @@ def replayOne (s : Sys) (j : Json) : R (Option (Sys × Json)) := do
   | "promote" =>
     match step s (.promote p) with
     | some s' =>
-      let ok := match getSub s' p with | some x => x.pc != .gone | none => false
+      let ok := s'.submitter == some p && s.submitter != some p
       pure (some (s', jbool ok))
     | none => pure none
   | "poll" =>
@@ -79,6 +79,9 @@ def replayOne (s : Sys) (j : Json) : R (Option (Sys × Json)) := do
     let b ← nat j "b"
     let rows := s.nodeFile b
     pure ((step s (.collectFile p b)).map (·, jarr (rows.map jrow)))
+  | "collectCopy" =>
+    let b ← nat j "b"
+    pure ((step s (.collectCopy p b)).map (·, Json.null))
   | "passEnd" =>
     let obs ← natList j "ks"
     match sub? with
